@@ -3,11 +3,11 @@ CONSTANTS
   Senders = {s1, s2}
   Probes = {x1}
   Late = {}
-  MaxReq = 3
+  MaxReq = 2
   MaxAbandon = 2
-  DirOf <- SameSide
-  Kinds = {"cast", "call"}
-  Faults = {"cut"}
+  DirOf <- BothSides
+  Kinds = {"call"}
+  Faults = {"cut", "exit"}
   TagMode = "fresh"
   ResolveMode = "bytag"
   MaxPg = 0
